@@ -44,6 +44,8 @@ var (
 	D0   = contract('d', 0)
 	T0   = contract('t', 0) // a contract whose owner is the contract s0
 	M    = contract('m', 0xff)
+	// M2 is another metachain system contract (the delegation manager's address form)
+	M2 = func() []byte { a := append([]byte{}, vmcommon.ESDTSCAddress...); a[29] = 4; return a }()
 	Sys  = vmcommon.SystemAccountAddress
 	ESDT = vmcommon.ESDTSCAddress
 )
@@ -97,6 +99,8 @@ func Name(a []byte) string {
 		return "t0"
 	case string(M):
 		return "m"
+	case string(M2):
+		return "m2"
 	case string(Sys):
 		return "sys"
 	case string(ESDT):
@@ -216,6 +220,7 @@ type Builder struct {
 func NewBuilder(env *world.Env) *Builder {
 	w := world.New(env.Cfg.NumShards)
 	w.Meta[string(M)] = true
+	w.Meta[string(M2)] = true
 	mk := func(addr, owner []byte) {
 		a := w.Ensure(addr)
 		a.Owner = append([]byte{}, owner...)
@@ -247,6 +252,26 @@ func (b *Builder) Must(act world.Action) *Builder {
 			b.Failed = fmt.Sprintf("seed construction step failed although it has to succeed: %s %s: err=%v panic=%v", l.Side, l.Func, l.Err, l.Panic)
 			return b
 		}
+	}
+	b.W = nw
+	return b
+}
+
+// Refused applies an action whose first execution is expected to be refused (e.g. a delivery to
+// a non-payable contract, which leaves a refund in flight).
+func (b *Builder) Refused(act world.Action) *Builder {
+	if b.Failed != "" {
+		return b
+	}
+	if (act.Kind == world.ActDeliver || act.Kind == world.ActDeliverTwice) && act.Msg >= len(b.W.Inflight) {
+		b.Failed = "seed construction: no message in flight to deliver"
+		return b
+	}
+	nw, legs := b.Env.Step(b.W, act)
+	b.Legs = append(b.Legs, legs...)
+	if len(legs) == 0 || legs[0].OK() {
+		b.Failed = "seed construction: a step that was expected to be refused succeeded"
+		return b
 	}
 	b.W = nw
 	return b
